@@ -12,7 +12,15 @@ var profFault = &Profile{
 	Name: "C07-fault", MinOps: 5, MaxOps: 30, NColls: 2, BigVals: true, EndOnly: 100, NoPrelude: 1, NoGiant: true, Cmps: true, Snaps: true,
 	Kinds: []wk{{OpSet, 30}, {OpSetR, 2}, {OpDel, 10}, {OpGet, 5}, {OpGetItem, 4}, {OpMin, 2}, {OpMax, 1}, {OpTotals, 2}, {OpExist, 1}, {OpLen, 1},
 		{OpVisit, 8}, {OpEvict, 7}, {OpFlush, 12}, {OpReopen, 7}, {OpRevert, 3}, {OpCopyTo, 3}, {OpBlock, 1}, {OpRandom, 1}, {OpDel, 1},
-		{OpSetColl, 2}, {OpRmColl, 1}, {OpWrite, 2}, {OpSnap, 2}, {OpSnapClose, 1}},
+		{OpSetColl, 5}, {OpRmColl, 1}, {OpWrite, 2}, {OpSnap, 2}, {OpSnapClose, 1}},
+}
+
+// profLazyFault: histories for the fault phase of C19 (no FlushRevert: the value
+// byte ranges of reverted flushes would go stale).
+var profLazyFault = &Profile{
+	Name: "C19-lazyfault", MinOps: 5, MaxOps: 30, NColls: 2, BigVals: true, EndOnly: 100, NoPrelude: 1, NoGiant: true, Cmps: true,
+	Kinds: []wk{{OpSet, 26}, {OpSetR, 2}, {OpDel, 10}, {OpGet, 5}, {OpGetItem, 10}, {OpMin, 4}, {OpMax, 3}, {OpTotals, 2}, {OpExist, 4}, {OpLen, 2},
+		{OpVisit, 10}, {OpEvict, 9}, {OpFlush, 12}, {OpReopen, 8}},
 }
 
 // profIterFault: histories for the fault phase of C18 (visits and iterators
@@ -36,6 +44,8 @@ func faultOptsFor(prop string) RunOpts {
 		return RunOpts{Prop: "C17"}
 	case "C09":
 		return RunOpts{Prop: "C09", Monitor: true, RevertPoints: true}
+	case "C19":
+		return RunOpts{Prop: "C19", Lazy: true}
 	}
 	return faultOpts
 }
@@ -84,6 +94,11 @@ func RunFault(c Case) (*Violation, map[string]int, *FaultPlan) {
 	if v != nil && opts.Prop == "C09" && !monitorSig(v.Sig) {
 		// C09's fault phase judges the write/truncate log only; what else a failing
 		// file may break is C07's business and is reported by ./check C07
+		ev["other_property_failures"]++
+		v = nil
+	}
+	if v != nil && opts.Prop == "C19" && v.Sig != "value-read-by-key-only-op" {
+		// C19's fault phase judges the read log of key-only ops only
 		ev["other_property_failures"]++
 		v = nil
 	}
